@@ -155,6 +155,10 @@ func calculateNextQuota(
 	if next-current > remaining {
 		next = current + remaining
 	}
+	// the remaining capacity may be used up or negative, the minimum quota still applies
+	if next < 1 {
+		next = 1
+	}
 
 	next = math.Ceil(next)
 
